@@ -3,6 +3,7 @@ package checks
 import (
 	"bytes"
 	"fmt"
+	"math"
 	"strings"
 	"time"
 
@@ -47,7 +48,7 @@ func runC20(c *vf.Case) {
 	discardedSinceReset := 0 // bytes discarded through the offsetter since it was last reset
 	nextSeq := 100
 	outOfOrderPops, dups, longestNeverEmpty, run := 0, 0, 0, 0
-	resets, overAsks := 0, 0
+	resets, overAsks, extremes, reserveGrowths := 0, 0, 0, 0
 	capErrs := map[string]int{}
 	rangeErrsInARow := 0
 	var shape strings.Builder
@@ -122,10 +123,37 @@ func runC20(c *vf.Case) {
 			data := make([]byte, k)
 			vf.GenFill(data, gen, genOff)
 			genOff += k
-			_, _ = b.Write(data)
+			how := r.Intn(4)
+			switch how {
+			case 0:
+				_, _ = b.Write(data)
+			default:
+				// a receive loop that reserves room for a whole datagram before every read, with packets parked
+				room := k + []int{0, 1, 64, 1500, 9000, 65536}[r.Intn(6)]
+				grows := room > b.Reserved()
+				b.Reserve(room)
+				if grows {
+					reserveGrowths++
+				}
+				if got := b.Reserved(); got < room {
+					c.Failf("reserve-too-small", "Reserved()=%d after Reserve(%d)", got, room)
+				}
+				switch how {
+				case 1:
+					copy(b.ClaimFixed(k), data)
+				case 2:
+					b.Claim(func(dst []byte) int { return copy(dst, data) })
+				case 3:
+					if k > 0 {
+						if n, err := b.ReadFrom(bytes.NewReader(data)); n != int64(k) || err != nil {
+							c.Failf("readfrom-short", "ReadFrom of %d bytes into %d reserved -> %d, %v", k, room, n, err)
+						}
+					}
+				}
+			}
 			b.Commit(k)
 			read = append(read, data...)
-			c.Logf("arrive %d bytes", k)
+			c.Logf("arrive %d bytes (how=%d)", k, how)
 			checkTotals("arrive")
 		case op <= 4: // park a packet
 			n := r.Intn(65)
@@ -150,6 +178,11 @@ func runC20(c *vf.Case) {
 			case len(parked) > 0 && r.Chance(1, 6):
 				seq = parked[r.Intn(len(parked))].seq
 				dup = true
+			case r.Chance(1, 14):
+				// sequence numbers at the ends of the int range (an all-ones "no sequence" marker, wire numbers past
+				// 2^63 converted to int): any two ints are ordered, however far apart
+				seq = []int{math.MaxInt64, math.MinInt64, -1, 0, math.MaxInt64 - 1, math.MinInt64 + 1, -nextSeq}[r.Intn(7)]
+				extremes++
 			case r.Chance(1, 2):
 				seq = nextSeq + r.Intn(50) - 25 // out of order arrivals
 			default:
@@ -293,6 +326,8 @@ func runC20(c *vf.Case) {
 	c.Count("out_of_order_pops", outOfOrderPops)
 	c.Count("resets_with_packets_parked", resets)
 	c.Count("saves_asking_for_more_than_is_readable", overAsks)
+	c.Count("sequence_numbers_at_the_ends_of_the_int_range", extremes)
+	c.Count("growing_reserves_between_arrivals", reserveGrowths)
 	c.Count("duplicate_pushes", dups)
 	for k, v := range capErrs {
 		c.Count("capacity_errors_"+k, v)
